@@ -246,16 +246,20 @@ def renderWith (I : RenderImpl) (fs : List String) : Option String :=
       let ew ← ew
       if err.isEmpty && (w == "access_error" || w == "par_error") then none else
       pure (skipOr ((I.error ew cfg err).map (fun r => encResponse r "-")))
-  | ["render", "authorize_error", l, x, chain, mode, valid, base, query, state] => do
+  -- (a trailing field "ak=0": html/template's URL filter does not keep this redirect URI as the form action)
+  | ["render", "authorize_error", l, x, chain, mode, valid, base, query, state]
+  | ["render", "authorize_error", l, x, chain, mode, valid, base, query, state, _] => do
     let cfg : Cfg := ⟨decBool l, decBool x⟩
     let err ← decChain chain
     if err.isEmpty then none else
     let ar : AuthReq := { mode := (← unhex mode), redirValid := decBool valid, redirBase := (← unhex base),
-                          redirQuery := (← decPairs query), state := (← unhex state) }
+                          redirQuery := (← decPairs query), state := (← unhex state),
+                          actionKept := fs.getLast? != some "ak=0" }
     pure (skipOr ((I.error (.authorize ar) cfg err).map (fun r => encResponse r (if ar.redirValid then "1" else "0"))))
-  | ["render", "authorize_response", mode, base, query, headers, params] => do
+  | ["render", "authorize_response", mode, base, query, headers, params]
+  | ["render", "authorize_response", mode, base, query, headers, params, _] => do
     let ar : AuthReq := { mode := (← unhex mode), redirValid := true, redirBase := (← unhex base),
-                          redirQuery := (← decPairs query) }
+                          redirQuery := (← decPairs query), actionKept := fs.getLast? != some "ak=0" }
     pure (skipOr ((I.authorizeResponse ar (← decHeaders headers) (← decPairs params)).map (encResponse · "-")))
   | ["render", "introspection_response", active, extras, exp, client, scopes, iat, sub, aud, user] => do
     let r : Introspection := { active := decBool active, extraClaims := (← decExtras extras), exp := (← decOptNat exp),
